@@ -188,6 +188,11 @@ func (fx *FuncCtx) failf(format string, args ...any) {
 func (e *Engine) verifyFunc(pkgPath, key string) (fx *FuncCtx, err error) {
 	fn := e.funcs[pkgPath+":"+key]
 	pc := e.contracts[pkgPath]
+	if pc != nil {
+		if fc := pc.Funcs[key]; fc != nil && fc.Env {
+			return e.verifyEnv(pc, fc, key)
+		}
+	}
 	if fn == nil {
 		return nil, fmt.Errorf("function %s:%s not found in the working tree", pkgPath, key)
 	}
@@ -643,8 +648,15 @@ func (fx *FuncCtx) loopHavoc(st *State, b *ssa.BasicBlock) {
 				continue
 			}
 		}
+		prevVer := fx.heapGet(st.heap, k)
 		st.heap[k.Key] = fx.decls.fresh(k.Key, sortOf)
 		st.noteWrite(k.Key, "*")
+		if k.Key == chClosed.Key {
+			// closed channels stay closed
+			fx.decls.n++
+			q := fmt.Sprintf("q$ch!%d", fx.decls.n)
+			st.assume("(forall ((" + q + " Int)) (! " + implies(sx("select", prevVer, q), sx("select", st.heap[k.Key], q)) + " :pattern (" + sx("select", st.heap[k.Key], q) + ")))")
+		}
 		if et, ok := fx.intElemKeys[k.Key]; ok {
 			nm := st.heap[k.Key]
 			fx.decls.n++
@@ -1343,6 +1355,23 @@ func (fx *FuncCtx) execUnOp(st *State, in *ssa.UnOp) {
 			if x.L.Kind != LocCell {
 				fx.assumeTyping(st, v)
 			}
+			if x.L.Kind == LocField && len(v.C) == 1 {
+				first := x.L.Path
+				if i := strings.Index(first, "."); i >= 0 {
+					first = first[:i]
+				}
+				if cls, _ := fx.eng.fieldClass(namedOf(x.L.Root), first); cls == "nonnilchan" {
+					// only non-nil values are ever sent on this channel (declared; trusted, checked at the senders under contract)
+					fx.decls.declare("CH$nonnil", "(Array Int Bool)")
+					st.assume(sx("select", "CH$nonnil", v.C[0]))
+					fx.trusted["field "+typeStr(x.L.Root)+"."+first+": only non-nil values are sent on this channel"] = true
+				} else if cls == "signal" {
+					// a channel that is only ever closed, never sent to (declared; trusted)
+					fx.decls.declare("CH$signal", "(Array Int Bool)")
+					st.assume(sx("select", "CH$signal", v.C[0]))
+					fx.trusted["field "+typeStr(x.L.Root)+"."+first+" is a signal channel: it is only closed, never sent to"] = true
+				}
+			}
 			if x.L.Kind == LocField && len(v.C) == 4 {
 				first := x.L.Path
 				if i := strings.Index(first, "."); i >= 0 {
@@ -1617,4 +1646,80 @@ func (fx *FuncCtx) doReturn(st *State, in *ssa.Return) {
 
 func (fx *FuncCtx) lockedAtEntry(key string) bool {
 	return len(fx.fc.Locked) > 0 // refined: any locked function keeps its locks
+}
+
+// verifyEnv: an environment action (no Go body) must preserve the monitor invariants of its receiver type.
+func (e *Engine) verifyEnv(pc *PkgContracts, fc *FuncContract, key string) (fx *FuncCtx, err error) {
+	fx = &FuncCtx{eng: e, fc: fc, pc: pc, key: key, mode: fc.Mode, keySorts: map[string]string{}, refKeys: map[string]int{}, intElemKeys: map[string]types.Type{},
+		opaques: map[string]*opaqueInfo{}, opaqueUsed: map[string]bool{}, trusted: map[string]bool{}, reveal: map[string]bool{}, pkg: e.typesPkg(pc.Path), paramVals: map[string]Val{}}
+	fx.decls = newDecls()
+	fx.ar = newArith(fx.mode, fx.decls)
+	for g := range e.errGlobals {
+		fx.decls.declare(g+"!tag@0", "Int")
+		fx.decls.declare(g+"!data@0", "Int")
+	}
+	defer func() {
+		if r := recover(); r != nil {
+			switch x := r.(type) {
+			case unsupported:
+				err = fmt.Errorf("%s: %v", key, x)
+			case specErr:
+				err = fmt.Errorf("%s: contract error: %s", key, x.msg)
+			default:
+				panic(r)
+			}
+		}
+	}()
+	tn, ok := fx.pkg.Scope().Lookup(fc.RecvType).(*types.TypeName)
+	if !ok {
+		fx.failf("env %s: unknown receiver type %s", key, fc.RecvType)
+	}
+	nt := tn.Type().(*types.Named)
+	st := &State{regs: map[ssa.Value]Val{}, cells: map[ssa.Value]Val{}, heap: map[string]string{}, held: map[string]string{}, inLoop: map[*ssa.BasicBlock]bool{}, freshRefs: map[string]bool{}, callN: map[string]int{}}
+	fx.entryTop = fx.decls.declare("alloc$top@entry", "Int")
+	st.heap["alloc$top"] = fx.entryTop
+	recv := fx.freshVal("p$"+fc.Recv, types.NewPointer(nt))
+	st.assume(not(eq(recv.s(), "0")))
+	fx.paramVals[fc.Recv] = recv
+	env := fx.specEnv(st, st.heap, st.heap)
+	for _, inv := range e.invariantsOf(nt) {
+		ne := env.with(map[string]Val{inv.Recv: recv})
+		var side []string
+		ne.side = &side
+		t := ne.boolTerm(inv.E)
+		for _, s := range side {
+			st.assume(s)
+		}
+		st.assume(t)
+	}
+	for _, rq := range fc.Requires {
+		var side []string
+		env.side = &side
+		t := env.boolTerm(rq.E)
+		for _, s := range side {
+			st.assume(s)
+		}
+		st.assume(t)
+	}
+	fx.canary(st, "entry", token.NoPos)
+	old := copyMap(st.heap)
+	genv := fx.specEnv(st, st.heap, old)
+	fx.runGhost(st, "env", genv, token.NoPos)
+	env2 := fx.specEnv(st, st.heap, old)
+	for _, inv := range e.invariantsOf(nt) {
+		ne := env2.with(map[string]Val{inv.Recv: recv})
+		ne.cur = st.heap
+		t := ne.boolTerm(inv.E)
+		fx.oblige(st, "stable", inv.Name, t, token.NoPos, "invariant "+inv.Name+" is preserved by environment action "+key+": "+inv.Src)
+	}
+	for i, en := range fc.Ensures {
+		label := en.Name
+		if label == "" {
+			label = fmt.Sprintf("#%d", i+1)
+		}
+		env2.cur = st.heap
+		fx.oblige(st, "post", label, env2.boolTerm(en.E), token.NoPos, en.Src)
+	}
+	fx.trusted["environment action "+key+" models the Go runtime (its occurrence and effect are assumptions; only the stability of the invariant under it is proved)"] = true
+	return fx, nil
 }
